@@ -99,7 +99,7 @@ class Probe:
         case = {'headers': [list(h) for h in headers], 'card': card,
                 'body': {'msgs': 1, 'partial': False, 'eof': eof}, 'ops': [o if isinstance(o, str) else list(o) for o in ops],
                 'fin': list(fin), 'policy': kw.get('policy', 'honour'), 'fin2': list(kw.get('fin2', ('ret',))),
-                'ext': 'none', 'ext_at': None}
+                'ext': 'none', 'ext_at': None, 'codec': kw.get('codec')}
         self.n += 1
         obs = self.impl.run_case(case)
         if obs.get('violations'):
@@ -160,6 +160,24 @@ def abort_facts(pr):
         obs = pr.run(hs)
         if obs['end'] != 'ret':
             raise Unsupported('acceptable request refused: %r -> %r' % (hs[-2:], obs['frames']))
+    # a server whose codec is not the proto one: its own subtype is accepted, the bare application/grpc (which
+    # means +proto), the empty subtype and +proto are refused like any other unacceptable content-type
+    for sub in ('json', 'x.my-codec'):
+        own = replaced('content-type', 'application/grpc+' + sub)
+        obs = pr.run(own, codec=sub)
+        if obs['end'] != 'ret':
+            raise Unsupported('codec %s: its own content-type refused: %r' % (sub, obs['frames']))
+        for ct in ('application/grpc', 'application/grpc+', 'application/grpc+proto', 'application/grpc+' + sub + 'x'):
+            for eof in (True, False):
+                t, _ = refusal(pr.run(replaced('content-type', ct), eof=eof, codec=sub), eof,
+                               'codec %s, content-type %s' % (sub, ct))
+                if t != triple['content-type']:
+                    raise Unsupported('codec %s: content-type %r answered %r' % (sub, ct, t))
+        for name, _, muts in DEFECTS:          # the other refusals do not depend on the codec
+            if name not in ('content-type',):
+                t, _ = refusal(pr.run(muts[0](own), codec=sub), True, 'codec %s, defect %s' % (sub, name))
+                if t != triple[name]:
+                    raise Unsupported('codec %s: defect %s answered %r' % (sub, name, t))
     # precedence: every combinable pair of defects
     wins = {n: 0 for n, _, _ in DEFECTS}
     beats = {}
@@ -272,6 +290,15 @@ def generate(repo):
     ct = header_dict(obs['frames'][0]).get('content-type')
     if ct != GRPC_CONTENT_TYPE + '+' + ProtoCodec.__content_subtype__:
         raise Unsupported('response content-type %r' % ct)
+    # ... whatever the response shape: HEADERS, trailers-only at exit, explicit trailers-only
+    for sub in ('json', 'x.my-codec'):
+        own = replaced('content-type', 'application/grpc+' + sub)
+        for ops, fin in ((('M',), ('ret',)), ((), ('exc',)), ((), ('grpc', 5, 'nf')), ((('T', 7, 'pd'),), ('ret',)),
+                         (('I',), ('ret',))):
+            obs = pr.run(own, ops, fin, 'SS', codec=sub)
+            got = header_dict(obs['frames'][0]).get('content-type') if obs['frames'] else None
+            if got != GRPC_CONTENT_TYPE + '+' + sub:
+                raise Unsupported('codec %s: response content-type %r (%r)' % (sub, got, ops))
 
     def opt_z(v):
         return 'None' if v is None else 'Some %d' % v
